@@ -1,13 +1,18 @@
 """C18 — numbered databases are fully isolated from one another."""
 import workloads
 import gen
+import forms
+import formspaths
+from session import Session, ServerDied
 
 LEVEL = 'model_checking'
 RULE = ('TLC checks C18_Frame (a step touches only the database selected on that connection, FLUSHALL excepted) and '
         'C18_SelectRange over all interleavings of 2 connections selecting databases and running commands directly and '
         'inside transactions (MC_Txn/MC_C18); its transitions are replayed; seeded random histories run every command '
         'family on equal key names in several databases through direct commands, MULTI/EXEC (with SELECT inside), scripts '
-        '(EVAL/EVALSHA) and blocking pops, and end with a dump of all 16 databases; all validated by TLC.')
+        '(EVAL/EVALSHA) and blocking pops, and end with a dump of all 16 databases; the forms catalogue (lib/forms.py) runs in a '
+        'non-zero database while another database holds the same key names with other values, through direct dispatch, '
+        'MULTI/EXEC, EVAL and SCRIPT LOAD + EVALSHA, each form followed by a dump of both databases; all validated by TLC.')
 ASSUMPTIONS = ['the 16-way model is the dbs component of the spec state']
 
 
@@ -21,7 +26,30 @@ def run(ctx):
     for i in range(n_hist):
         workloads.random_history(ctx, srv, workloads.MultiDbGen(ctx.rnd), n=1200 if ctx.quick else 4000,
                                  label='dbs%d' % i, dbs=tuple(range(16)))
-    ctx.extra_cov['distinct_cases'] = len(paths) + n_hist
+    # the forms catalogue in a non-zero database while another database holds the same key names, through every path
+    tr = ctx.new_trace('forms')
+    s = Session(srv, tr)
+    n = 0
+    PATHS = ['direct', 'multi', 'script-lit', 'script-sha']
+    try:
+        if ctx.quick:
+            # commands that address a whole database (or all of them) go through every path, the others through one
+            whole = [a for a in forms.FORMS if a[0].upper() in (b'FLUSHALL', b'FLUSHDB', b'KEYS', b'DBSIZE', b'SCAN', b'RANDOMKEY',
+                                                               b'RENAME', b'RENAMENX', b'DEL', b'EXISTS', b'MSET', b'MGET')]
+            rest = [a for a in forms.FORMS if a not in whole]
+            for i, path in enumerate(PATHS):
+                db, odb = (1, 3, 15, 2)[i], (0, 2, 0, 1)[i]
+                n += formspaths.run_forms(s, path, db, odb, subset=whole + rest[i::4])
+        else:
+            for path in PATHS:
+                for db, odb in ((1, 0), (15, 2), (0, 3)):
+                    n += formspaths.run_forms(s, path, db, odb)
+    except ServerDied:
+        tr.emit({'k': 'crash', 'status': srv.exit_status()})
+    s.close_all()
+    ctx.validate_segments(tr, 'forms')
+    ctx.extra_cov['form_segments'] = n
+    ctx.extra_cov['distinct_cases'] = len(paths) + n_hist + n
 
 
 def replay(ctx, path):
